@@ -63,6 +63,7 @@ def gen(rng, driver):
         elif k == 'ancestor': sc.l(b'/W/S/real/back', b'..')
     sc.opts = ['r', 'L']
     sc.paths = [b'S', b'DEST']
+    sc.extra = rng.choice([[], [], [], ['--no-progress'], ['--no-progress'], ['--fsync'], ['--no-perms'], ['--no-timestamps'], ['--reflink=never'], ['--no-progress', '--fsync'], ['-v']])      # options that must not change what is selected or how links are treated
     return sc
 
 
@@ -81,6 +82,17 @@ def gen_operands(rng, driver):
         sc.paths = rng.sample(links, rng.randint(1, 3)) + ([b'S/plain'] if rng.random() < 0.5 else []) + [b'DEST']
     sc.kinds = ['operand-links' + ('' if 'r' in sc.opts else '-no-recursive')]
     sc.operands = True
+    if rng.random() < 0.35:
+        # the operands come from xcp's own --glob expansion; a dangling link or a link cycle among the matches must make the run
+        # fail exactly as a literal operand would
+        sc.d(b'/W/DEST') if not any(e['p'] == b'/W/DEST' for e in sc.entries) else None
+        bad = rng.choice(['dangling', 'cycle2', 'none'])
+        if bad == 'dangling': sc.l(b'/W/S/lzz', b'nowhere')
+        elif bad == 'cycle2': sc.l(b'/W/S/lz1', b'lz2'); sc.l(b'/W/S/lz2', b'lz1')
+        sc.opts = ['L', 'glob'] + (['r'] if 'r' in sc.opts else [])
+        sc.paths = [b'S/l*', b'DEST']
+        sc.kinds = ['operand-glob'] + ([bad] if bad != 'none' else [])
+        sc.operands = False; sc.glob_operands = True
     return sc
 
 
@@ -201,8 +213,15 @@ def run(ctx):
                     for q, e in ents.items():
                         if q.startswith(r[1] + b'/') and b'/' not in q[len(r[1]) + 1:]:
                             expect(q, dstp + b'/' + q[len(r[1]) + 1:], depth + 1)
-            if not getattr(sc, 'operands', False):
+            if not getattr(sc, 'operands', False) and not getattr(sc, 'glob_operands', False):
                 expect(b'/W/S', b'/W/DEST')
+            if getattr(sc, 'glob_operands', False) and not bad:
+                for e in sc.entries:
+                    if e['k'] == 'l' and e['p'].startswith(b'/W/S/l'):
+                        r = resolve(ents, e['p'])
+                        dp = b'/W/DEST/' + e['p'].split(b'/')[-1]
+                        if r and r[0] == 'f' and after.get(dp) != f'f:{r[1]}':
+                            bad = f'{dp!r} should be a regular file with the bytes {e["p"]!r} points to (found {after.get(dp)})'
         elif not must_fail:
             bad = f'a tree whose links all resolve failed to copy: {o.res.stderr.strip()[-150:]}'
         if bad:
